@@ -19,7 +19,7 @@ ASSUMPTIONS = ["Bezier tolerance: rounding bound 1024*eps*(|positions| under the
                "exactly-fitting window, cf. C04)", "default origins as documented: point(0.5), Arc.center, Path.point(0.5); scaled default 0j"]
 CONFIGS = ['scipy']
 BUDGET = {'quick': 30000, 'thorough': 400000}
-REQUIRED = ['op:translated', 'op:rotated', 'op:scaled', 'op:scaled_xy', 'op:transform', 'kind:A', 'kind:path', 'path:closed',
+REQUIRED = ['pre:queried', 'pre:reversed_twice', 'pre:transformed_before', 'op:translated', 'op:rotated', 'op:scaled', 'op:scaled_xy', 'op:transform', 'kind:A', 'kind:path', 'path:closed',
             'M:shear', 'M:reflect_diag', 'M:nonuniform', 'M:rotation', 'arc_nonuniform_scaled_refused']
 
 EPS = 2.0 ** -52
@@ -110,6 +110,7 @@ def strategy(tier, config):
         else:
             d['M'] = draw(matrix_s())
         d['ts'] = draw(st.lists(gen.floats_in(0.0, 1.0), min_size=1, max_size=2))
+        d['pre'] = draw(st.sampled_from(['none', 'none', 'queried', 'reversed_twice', 'transformed_before']))
         return d
     return s()
 
@@ -132,6 +133,21 @@ def check(case, ctx):
     curve = ctx.lib('build', gen.build_path, specs) if is_path else ctx.lib('build', gen.build_seg, specs[0])
     kind = 'path' if is_path else specs[0][0]
     ctx.count('kind:' + kind)
+    # the object the operation is applied to may have a past: caches filled by queries, or itself the product of operations
+    pre = case.get('pre', 'none')
+    if pre != 'none':
+        ctx.count('pre:' + pre)
+        ctx.lib('warm', curve.length)
+        ctx.lib('warm', curve.bbox)
+        ctx.lib('warm', curve.point, 0.3)
+        if pre == 'reversed_twice':
+            curve = ctx.lib('reversed', ctx.lib('reversed', curve.reversed).reversed)
+        elif pre == 'transformed_before':
+            # there and back by an exactly invertible translation (power of two times the size)
+            zz = complex(2.0 ** math.floor(math.log2(gen.spec_size(specs) or 1.0)), 0)
+            curve = ctx.lib('translated', ctx.lib('translated', curve.translated, zz).translated, -zz)
+            ctx.lib('warm', curve.length)
+        specs = [gen.seg_spec_of(sg) for sg in (curve if is_path else [curve])]
     op = case['op']
     ctx.count('op:' + op)
     has_arc = any(s[0] == 'A' for s in specs)
@@ -153,6 +169,8 @@ def check(case, ctx):
         if gen.path_is_closed(specs):
             ctx.count('path:closed')
 
+    # the points of the curve as it is before the operation (the operation must not be judged against a source it altered)
+    src_pts = [[complex(a.point(t)) for t in TG + case['ts']] for a in segs]
     # -- the operation and its expected action on points -----------------------------------------
     cond = 1.0
     mag = 1.0
@@ -224,8 +242,8 @@ def check(case, ctx):
         cls = '%s/%s' % (op, sp[0])
         if op == 'transform':
             cls += '/' + '+'.join(sorted({fct[0] for fct in case['M']} - {'identity', 'translation'}))[:60]
-        for t in TG + case['ts']:
-            want = f(complex(a.point(t)))
+        for t, src in zip(TG + case['ts'], src_pts[segs.index(a) if False else [id(x) for x in segs].index(id(a))]):
+            want = f(src)
             got = complex(b.point(t))
             ctx.check(abs(got - want) <= tol, 'commute/' + cls,
                       '%s: result.point(%r)=%r but mapped point=%r (|diff|=%.3g, tol %.3g)' % (op, t, got, want, abs(got - want), tol))
